@@ -9,7 +9,7 @@ import os
 from . import tm
 from .driver import Accounting, Task
 from .graph import build_paths
-from .instruments import Cancelled, ClsSource, ClsSourceNoClose, AgenSource, Item, Recorder
+from .instruments import Cancelled, ClsSource, ClsSourceNoClose, AgenSource, Item, Recorder, SyncIterSource
 from .report import Verdict
 from .tlc import read_ndjson, run_tlc
 
@@ -43,6 +43,11 @@ class HSys:
         if ukind == "agen":
             self.usrc = AgenSource(self.rec, 1, items)
             self.U = self.usrc.gen
+        elif ukind == "sync":
+            # a plain synchronous iterator handed to scoped_iter: the scope owns the asynchronous view it makes
+            # of it; the owner keeps advancing the iterator itself with next()
+            self.usrc = SyncIterSource(self.rec, 1, items)
+            self.U = self.usrc
         else:
             cls = {"send": SendSource, "throwonly": ThrowOnlySource, "cls": ClsSource, "noclose": ClsSourceNoClose,
                    "iterable": ClsSource}[ukind]
@@ -97,6 +102,11 @@ class HSys:
             self.h[self.nh] = r[1]
             return ("ok",)
         if op == "next":
+            if a[1] == 0 and self.ukind == "sync":
+                try:
+                    return ("item", next(self.usrc).p)
+                except StopIteration:
+                    return ("item", 0)
             r = self.run(self.h[a[1]].__anext__())
             return self._item(r)
         if op == "aclose":
@@ -164,8 +174,8 @@ INVARIANT InOrder
 TIERS = {
     "C07": {"quick": [(2, 2, 4, False, True, False, ["cls", "agen", "throwonly", "noclose"]), (2, 1, 4, False, True, True, ["send"])],
             "thorough": [(3, 3, 5, False, True, False, ["cls", "agen", "throwonly", "noclose"]), (3, 2, 5, False, True, True, ["send"]), (2, 2, 6, False, True, False, ["cls"])]},
-    "C08": {"quick": [(2, 2, 4, True, False, False, ["cls", "agen", "iterable"]), (2, 2, 4, True, True, False, ["cls"])],
-            "thorough": [(3, 3, 5, True, False, False, ["cls", "agen", "iterable"]), (3, 3, 5, True, True, False, ["cls", "agen"]), (2, 2, 6, True, True, True, ["send"])]},
+    "C08": {"quick": [(2, 2, 4, True, False, False, ["cls", "agen", "iterable", "sync"]), (2, 2, 4, True, True, False, ["cls"])],
+            "thorough": [(3, 3, 5, True, False, False, ["cls", "agen", "iterable", "sync"]), (3, 3, 5, True, True, False, ["cls", "agen"]), (2, 2, 6, True, True, True, ["send"])]},
 }
 
 
@@ -189,6 +199,8 @@ def replay_path(args):
             p_ = e["f"]["par"][a[1] - 1]
             if p_ and e["f"]["kind"][p_ - 1] == "borrow":
                 closed.add(p_)
+        if ukind == "sync" and a[0] == "next" and a[1] == 0 and e["f"]["uc"] >= 1:
+            continue      # the model's underlying is closed; a synchronous iterator cannot be, its owner may go on using it
         try:
             r = s.apply(a)
         except Exception as ex:  # noqa: BLE001
@@ -207,6 +219,10 @@ def replay_path(args):
             if r[1] != exp_items:
                 return bad("tool-sees-wrong-items", j, {"expected": exp_items, "observed": r[1], "op": a})
         exp_c = {"up": exp_t["up"], "us": exp_t["us"], "uc": exp_t["uc"]}
+        if ukind == "sync":   # a synchronous iterator has nothing to close: whether its view was closed shows in the handles only
+            c["uc"] = exp_c["uc"]
+            if exp_c["uc"] >= 1:      # ... and what its owner sees afterwards is not the library's business (skipped above)
+                c["us"] = exp_c["us"]
         if ukind == "agen":   # a finished async generator reports its end only once
             exp_c["us"] = c["us"] = 0
             if s.usrc.state == "exhausted":   # ... and cannot observe an aclose() after it has finished
@@ -241,7 +257,13 @@ def replay_path(args):
                             return bad(f"ended-handle-{meth}-reaches-underlying", len(path), {"handle": hid, "observed": s.rec.log[before_log:]})
         if last_t["uc"] == 0:
             want = last_t["up"] + 1
-            r = s.run(s.U.__anext__())
+            if ukind == "sync":
+                try:
+                    r = ("done", next(s.usrc))
+                except StopIteration as ex:
+                    r = ("raised", ex)
+            else:
+                r = s.run(s.U.__anext__())
             got = r[1].p if r[0] == "done" else 0
             if want <= len(s.usrc.items) and got != want:
                 return bad("underlying-does-not-continue", len(path), {"expected": want, "observed": repr(r)})
